@@ -795,14 +795,12 @@ func (e *Engine) findIndicesBoundedBacktrackerAt(haystack []byte, at int) (int, 
 	remaining := haystack[at:]
 
 	// V11-002 ASCII optimization.
-	// For start-anchored patterns, limit the IsASCII check to a small prefix
-	// to avoid O(n) scan of the entire input when only position 0 matters.
+	// The ASCII automaton reads '.' as one byte, so it may only see input that is
+	// ASCII as far as a match can reach. A start-anchored match begins at position 0
+	// but can extend to the end of the input (^a.*b), so the whole remaining input
+	// has to be checked, not a prefix of it.
 	if e.asciiBoundedBacktracker != nil {
-		asciiCheck := remaining
-		if e.isStartAnchored && len(asciiCheck) > 4096 {
-			asciiCheck = asciiCheck[:4096]
-		}
-		if simd.IsASCII(asciiCheck) {
+		if simd.IsASCII(remaining) {
 			if !e.asciiBoundedBacktracker.CanHandle(len(remaining)) {
 				if e.dfa != nil && e.reverseDFA != nil {
 					return e.findIndicesBidirectionalDFALongest(haystack, at)
@@ -1305,14 +1303,12 @@ func (e *Engine) findIndicesBoundedBacktrackerAtWithState(haystack []byte, at in
 	remaining := haystack[at:]
 
 	// V11-002 ASCII optimization.
-	// For start-anchored patterns, limit the IsASCII check to a small prefix
-	// to avoid O(n) scan of the entire input when only position 0 matters.
+	// The ASCII automaton reads '.' as one byte, so it may only see input that is
+	// ASCII as far as a match can reach. A start-anchored match begins at position 0
+	// but can extend to the end of the input (^a.*b), so the whole remaining input
+	// has to be checked, not a prefix of it.
 	if e.asciiBoundedBacktracker != nil {
-		asciiCheck := remaining
-		if e.isStartAnchored && len(asciiCheck) > 4096 {
-			asciiCheck = asciiCheck[:4096]
-		}
-		if simd.IsASCII(asciiCheck) {
+		if simd.IsASCII(remaining) {
 			if !e.asciiBoundedBacktracker.CanHandle(len(remaining)) {
 				// Bidirectional DFA: O(n) vs PikeVM's O(n*states)
 				if e.dfa != nil && e.reverseDFA != nil {
